@@ -47,20 +47,25 @@ def ladder_case(rng, pattern, asset='EQ:AAA', fractional=False):
     net = 0
     mode = rng.choice(['zero', 'flat', 'prop', 'prop'])
     marks = rng.random() < 0.7
+    huge = (not fractional) and rng.random() < 0.15
     n = 0
     for side, size in pattern:
         sgn = 1 if side == 'buy' else -1
         opposing = net != 0 and (net > 0) != (sgn > 0)
-        base = abs(net) if net else rng.randint(2, 5000)
+        base = abs(net) if net else (rng.randint(10 ** 5, 5 * 10 ** 6) if huge else rng.randint(2, 5000))
         ib = int(base)
         if size == 'equal':
             q = base
         elif size == 'smaller':
             q = rng.randint(1, ib - 1) if ib > 1 else 1
+            if huge and opposing and ib > 10:
+                q = ib - rng.randint(1, 5)              # leaves a remainder of a few units on a very large position
         else:
             q = ib + rng.randint(1, max(2, ib * 2))
+            if huge and opposing:
+                q = ib + rng.randint(1, 5)              # flips through zero by a few units
         if not opposing and rng.random() < 0.5:
-            q = max(1, int(10 ** rng.uniform(0, 5)))
+            q = max(1, int(10 ** rng.uniform(0, 6.5 if huge else 5)))
         if fractional and size != 'equal' and rng.random() < 0.6:
             q = q + rng.choice([0.25, 0.5, 0.75, 0.125])
         if fractional and rng.random() < 0.15:
@@ -133,7 +138,11 @@ class PGen(object):
         a = rng.choice(self.assets)
         net = mp.pos[a].net if a in mp.pos else 0
         x = rng.random()
-        if net and x < 0.2:
+        if net and abs(net) > 20 and rng.random() < 0.1:
+            q = -net + (1 if net > 0 else -1) * rng.randint(1, 5)
+        elif not net and rng.random() < 0.06:
+            q = rng.choice([1, -1]) * rng.randint(10 ** 5, 5 * 10 ** 6)
+        elif net and x < 0.2:
             q = -net
         elif net and x < 0.35:
             q = -net - (1 if net > 0 else -1) * rng.randint(1, abs(net) + 3)
@@ -201,3 +210,85 @@ def shard_ladders(spec, acc, prop):
         random_ladder(rng, acc, prop, rng.choice([20, 60, 150, 300]), faults=(prop == 'C15'))
     acc.count('contract_evaluations', bw.CONTRACT_EVALS['n'])
     acc.count('hook:transact_asset', bw._Instr.hits['transact_asset'])
+
+
+# ---------------------------------------------------------------------------
+# Direct use of the Position class (C03): the same Position object may pass through exactly zero and trade on.
+# The identities are over all fills since the position was opened.
+# ---------------------------------------------------------------------------
+
+def position_case(rng):
+    n = rng.choice([2, 3, 4, 6, 10, 25])
+    fills, marks = [], {}
+    net = 0
+    mode = rng.choice(['zero', 'flat', 'prop'])
+    for i in range(n):
+        x = rng.random()
+        if i and net and x < 0.3:
+            q = -net                                     # trade back to exactly flat, keep the object
+        elif i and net and x < 0.45:
+            q = -net - (1 if net > 0 else -1) * rng.randint(1, abs(net) + 5)
+        elif i and net and x < 0.6 and abs(net) > 1:
+            q = -(1 if net > 0 else -1) * rng.randint(1, abs(net) - 1)
+        else:
+            q = max(1, int(10 ** rng.uniform(0, 5))) * rng.choice([1, -1])
+        price = bw.rand_price(rng)
+        fills.append([q, price, comm_for(rng, mode, price, q)])
+        net += q
+        if rng.random() < 0.4:
+            marks[i] = bw.rand_price(rng)
+    return {'kind': 'position', 'fills': fills, 'marks': {str(k): v for k, v in marks.items()}}
+
+
+def run_position_case(case, acc):
+    from fractions import Fraction
+    from qstrader.broker.portfolio.position import Position
+    from qstrader.broker.transaction.transaction import Transaction
+    from qsmon.core import F, close, Violation
+    t = bw.ts('2020-06-01 15:00:00')
+    pos = None
+    bq = sq = 0
+    bpq = spq = bc = sc = Fraction(0)
+    last = None
+    for i, (q, price, comm) in enumerate(case['fills']):
+        t = t + pd.Timedelta(minutes=7)
+        txn = Transaction('EQ:AAA', q, t, price, 'D%d' % i, commission=comm)
+        if pos is None:
+            pos = Position.open_from_transaction(txn)
+        else:
+            pos.transact(txn)
+        if q > 0:
+            bq += q; bpq += F(price) * q; bc += F(comm)
+        else:
+            sq += -q; spq += F(price) * (-q); sc += F(comm)
+        last = price
+        m = case['marks'].get(str(i))
+        if m is not None:
+            t = t + pd.Timedelta(minutes=1)
+            pos.update_current_price(m, t)
+            last = m
+        net = bq - sq
+        mv = F(last) * net
+        scale = bpq + spq + abs(mv) + bc + sc + 1
+        total = mv - (bpq - spq) - (bc + sc)
+        if net > 0:
+            unreal = (F(last) - (bpq + bc) / bq) * net
+        elif net < 0:
+            unreal = (F(last) - (spq - sc) / sq) * net
+        else:
+            unreal = Fraction(0)
+        w = {'fill_index': i, 'fills_so_far': case['fills'][:i + 1]}
+        if pos.net_quantity != net:
+            raise Violation('C03', 'position/quantity', 'Position.net_quantity %r after fills summing to %d' % (pos.net_quantity, net), w)
+        if not close(pos.market_value, mv, abs(mv), rel=1e-12):
+            raise Violation('C03', 'position/market-value', 'market value %r, net %d x price %r' % (pos.market_value, net, last), w)
+        if not close(pos.total_pnl, total, scale):
+            raise Violation('C03', 'position/total-pnl', 'Position object (same object kept through flat) reports total P&L %r after '
+                            'fill %d; market value - cost of fills - commissions = %r' % (pos.total_pnl, i, float(total)), w)
+        if not close(pos.unrealised_pnl, unreal, scale):
+            raise Violation('C03', 'position/unrealised-pnl', 'unrealised %r, expected %r after fill %d' % (pos.unrealised_pnl, float(unreal), i), w)
+        if not close(F(pos.realised_pnl) + F(pos.unrealised_pnl), F(pos.total_pnl), scale):
+            raise Violation('C03', 'position/split', 'realised + unrealised != total', w)
+        acc.count('C03:direct_position_checks')
+        if net == 0 and i + 1 < len(case['fills']):
+            acc.count('C03:direct_position_traded_on_after_flat')
